@@ -224,3 +224,14 @@ def evaluate(prop, ctx, case):
                 continue
         out.append(v)
     return out, {'main': r}
+
+
+def probe(prop, ctx, name, sc, plan, cls):
+    """directed regression probe for a known finding the generators avoid on
+    purpose: returns a Finding when the defect is still there"""
+    case = Case(prop.ID, sc, plan, meta={'probe': name})
+    viols, runs = evaluate(prop, ctx, case)
+    for v in viols:
+        if v.cls == cls:
+            return [Finding(cls, v.detail, case, v.seq, 'probe ' + name)]
+    return []
